@@ -267,6 +267,20 @@ def c19_b(ctx):
     ctx.check(ok, sf, 'limits widened outwards by the same amount',
               'left -= d, right += d', 'degenerate limits are not widened outwards '
               'symmetrically', fn=sf, node=augs[0] if augs else sf.node)
+    # ... exactly when the two limits of the dimension (nearly) coincide
+    for n in left + right:
+        gs = [(t, pol) for (t, pol, _) in ctx.guards(sf, n)]
+        close = [pol for (t, pol) in gs
+                 if match_any(t, ('math.isclose(_l[_i, 0], _l[_i, 1], *_)',
+                                  'math.isclose(_l[_i, 1], _l[_i, 0], *_)',
+                                  'np.isclose(_l[_i, 0], _l[_i, 1], *_)',
+                                  'np.isclose(_l[_i, 1], _l[_i, 0], *_)',
+                                  '_l[_i, 0] == _l[_i, 1]', '_l[_i, 1] - _l[_i, 0] <= _',
+                                  '_l[_i, 1] - _l[_i, 0] < _')) is not None]
+        ctx.check(bool(close) and all(close), sf, 'widened exactly when the limits coincide',
+                  'if isclose(left, right): widen',
+                  'the limits are widened on the wrong side of the degeneracy test (a degenerate '
+                  'dimension keeps zero width: volume 0, density 1 / 0)', fn=sf, node=n)
     rr = returns(sf)
     ok = bool(rr) and bool(left) and isinstance(rr[0].value, ast.Name) and \
         isinstance(left[0].target.value, ast.Name) and \
